@@ -16,7 +16,11 @@ async def quiesce(loop, cap=20000):
         await asyncio.sleep(0)
         n += 1
         if n > cap:
-            raise RuntimeError("quiesce: livelock (loop never idle at this instant)")
+            # (a verdict of the virtual world, see simloop.Livelock: H.run reports status
+            # 'livelock' and the check turns it into a violation, not a harness error)
+            from .simloop import Livelock
+            raise Livelock("quiesce: the loop never goes idle at virtual time "
+                           f"{loop.time()} ({cap} turns)")
         if loop._ready:
             continue
         sch = loop._scheduled
